@@ -117,7 +117,7 @@ def work(chunk):
             if pj == 0:
                 # an abandoned parse comes first: its error callback rejects an error while the 4096-byte block just read ends in
                 # the first byte of a two-byte character.  Nothing of that parse may reach the next one.
-                cmds += ['bytes.set B5 %s' % POISON.hex(), 'parse - B5 eh=die', 'parse new:C7 B5 eh=die', 'cif.destroy C7']
+                cmds += ['bytes.set B5 %s' % POISON.hex(), 'parse - B5 eh=die' if (pi + base) % 2 else 'parse new:C1 B5 eh=die']
             cmds += ['bytes.set B0 %s' % hb.hex()]
             added = 0
             if base:
